@@ -349,6 +349,47 @@ BENIGN: List[Tuple[str, str, List[Tuple[str, str]]]] = [
     ("exclude-truthiness", G, [("        if exclude_nodes is not None:\n            graph.remove_nodes_from", "        if exclude_nodes:\n            graph.remove_nodes_from")]),
     ("maxc-le-0", D, [("if self.max_concurrency < 1:", "if self.max_concurrency <= 0:")]),
     ("owner-current-thread-ident", N, [("    return exec_nodes_lock_owner == get_ident()", "    return exec_nodes_lock_owner == get_ident() and exec_nodes_lock.locked()")]),
+    ("deps-one-expression", N, [("""        deps = self.args.copy()
+        # 2. and from kwargs
+        deps.extend(self.kwargs.values())
+        # 3. and from active
+        if self.active is not None:
+            deps.append(self.active)
+
+        return deps""", """        return [*self.args, *self.kwargs.values(), *([self.active] if self.active is not None else [])]""")]),
+    ("accessor-not-in", U, [("""        if self.id in results:
+            return reduce(lambda obj, key: obj.__getitem__(key), self.key, results[self.id])
+        return None""", """        if self.id not in results:
+            return None
+        return reduce(lambda obj, key: obj.__getitem__(key), self.key, results[self.id])""")]),
+    ("gate-arms-swapped", G, [("""        if cfg.RUN_DEBUG_NODES:
+            nodes_to_include = original_graph.include_debug_nodes(self.leaf_nodes) + list(
+                self.nodes
+            )
+        else:
+            nodes_to_include = list(set(self.nodes) - set(self.debug_nodes))""", """        if not cfg.RUN_DEBUG_NODES:
+            nodes_to_include = list(set(self.nodes) - set(self.debug_nodes))
+        else:
+            nodes_to_include = original_graph.include_debug_nodes(self.leaf_nodes) + list(
+                self.nodes
+            )""")]),
+    ("active-restructured", H, [("""    if xn.active is None:
+        return True
+    return bool(xn.active.result(results))""", """    if xn.active is not None:
+        return bool(xn.active.result(results))
+    return True""")]),
+    ("writeback-rename", D, [("""            xn = self.exec_nodes[node_id]
+            if xn.setup and not xn.executed(self.results):
+                logger.debug("Setting result of setup ExecNode {} to {}", node_id, result)""", """            the_node = self.exec_nodes[node_id]
+            if the_node.setup and not the_node.executed(self.results):
+                logger.debug("Setting result of setup ExecNode {} to {}", node_id, result)""")]),
+    ("subgraph-intermediate-var", G, [("            graph = graph.subgraph(graph.multiple_nodes_successors(root_nodes)).copy()",
+                                       "            kept = graph.multiple_nodes_successors(root_nodes)\n            graph = graph.subgraph(kept).copy()")]),
+    ("precall-strictdict-copy", D, [("            results = copy(results)\n            for node_id, result in cached_results.items():", "            results = StrictDict(results)\n            for node_id, result in cached_results.items():")]),
+    ("execute-args-loop", N, [("        args = [uxn.result(results) for uxn in self.args]", "        args = list(uxn.result(results) for uxn in self.args)")]),
+    ("helper-rename-params", H, [("running: Set[\"Future[Any]\"],", "pending: Set[\"Future[Any]\"],"), ("    if len(running) == 0:\n        return done, running, runnable_xns_ids\n    done_, running = wait(running, return_when=return_when)",
+                                  "    if len(pending) == 0:\n        return done, pending, runnable_xns_ids\n    done_, pending = wait(pending, return_when=return_when)"),
+                                 ("    return done, running, runnable_xns_ids\n\n\nasync def wait_for_finished_nodes_async", "    return done, pending, runnable_xns_ids\n\n\nasync def wait_for_finished_nodes_async")]),
     ("conf-if-in", N, [('values["priority"] = conf.get("priority", self.priority)', 'values["priority"] = conf["priority"] if "priority" in conf else self.priority')]),
 ]
 
